@@ -261,6 +261,20 @@ def _paths(ti: Any, macro: nodes.Macro, known: Any = None, limit: int = 512) -> 
     return out
 
 
+def _macro_region(ti: Any, name: str) -> set[str]:
+    """the macro and the macros of the same template it calls (directly or through one another): where what the macro writes is written"""
+    out: set[str] = set()
+    todo = [name]
+    while todo:
+        n = todo.pop()
+        m = ti.macros.get(n)
+        if m is None or n in out:
+            continue
+        out.add(n)
+        todo += [c.node.name for c in m.find_all(nodes.Call) if isinstance(c.node, nodes.Name)]
+    return out
+
+
 def _written(ps: list[_Piece]) -> str:
     """the text of a path, every hole as one private-use character (no identifier, no punctuation)"""
     return "".join(p.text if p.kind == "t" else HOLE for p in ps)
@@ -1012,6 +1026,11 @@ def _parameter_identity(rep: Report, ix: Any) -> None:
         return False
 
     def is_name(g: Any, e: ast.AST) -> bool:
+        """the name of the parameter under consideration, or a string made from it alone (lower-cased, stripped, str(...))"""
+        if isinstance(e, ast.Call) and not e.keywords:
+            if isinstance(e.func, ast.Attribute) and e.func.attr in STR_METHODS and all(isinstance(a, ast.Constant) for a in e.args):
+                return rg.denotes(g, e.func.value, is_name)
+            return call_name(e) == "str" and len(e.args) == 1 and rg.denotes(g, e.args[0], is_name)
         return isinstance(e, ast.Attribute) and e.attr == "name" and rg.denotes(g, e.value, is_current)
 
     def is_location(g: Any, e: ast.AST) -> bool:
@@ -1067,6 +1086,48 @@ def _parameter_identity(rep: Report, ix: Any) -> None:
     def constant(e: ast.AST) -> bool:
         return isinstance(e, ast.Constant) or (isinstance(e, (ast.Tuple, ast.List, ast.Set)) and all(constant(x) for x in e.elts))
 
+    def is_constant_table(g: Any, e: ast.AST) -> bool:
+        """a module-level constant of particular names"""
+        v = g.module.variables.get(e.id) if isinstance(e, ast.Name) and e.id not in rg.lc[g.qual].defs else None
+        if isinstance(v, ast.Call) and call_name(v) in ("set", "frozenset", "tuple", "list") and len(v.args) == 1:
+            v = v.args[0]
+        return v is not None and constant(v)
+
+    parents: dict[str, dict[int, ast.AST]] = {g.qual: {id(c): n for n in ast.walk(g.node) for c in ast.iter_child_nodes(n)} for g in rg.funcs}
+
+    def decisions(g: Any, n: ast.AST, depth: int = 3) -> list[tuple[Any, ast.AST]]:
+        """(function, test) of the decisions the value of the expression n takes part in or is made under: the tests of the statements,
+        conditional expressions and comprehension filters around it; when it is kept in a local, those around the reads of the local;
+        when it is what a helper of the region returns, those around the calls of the helper"""
+        out: list[tuple[Any, ast.AST]] = []
+        up = parents[g.qual]
+        x: ast.AST | None = n
+        while x is not None and x is not g.node:
+            p = up.get(id(x))
+            if isinstance(p, (ast.If, ast.While, ast.IfExp)):
+                out.append((g, p.test))
+            elif isinstance(p, ast.comprehension):
+                out += [(g, t) for t in p.ifs]
+            elif isinstance(p, (ast.ListComp, ast.SetComp, ast.GeneratorExp, ast.DictComp)) and x not in p.generators:
+                out += [(g, t) for c in p.generators for t in c.ifs]
+            elif isinstance(p, ast.BoolOp):
+                out.append((g, p))
+            elif depth and isinstance(p, (ast.Assign, ast.AnnAssign, ast.NamedExpr)) and x is p.value:
+                ts = p.targets if isinstance(p, ast.Assign) else [p.target]
+                for t in [t for t in ts if isinstance(t, ast.Name)]:
+                    for r in ast.walk(g.node):
+                        if isinstance(r, ast.Name) and r.id == t.id and isinstance(r.ctx, ast.Load):
+                            out += decisions(g, r, depth - 1)
+            elif depth and isinstance(p, ast.Return) and g != rg.root:
+                for caller, c in rg.sites.get(g.qual, []):
+                    out += decisions(caller, c, depth - 1)
+            x = p
+        return out
+
+    def location_decides(g: Any, n: ast.AST) -> bool:
+        """the location of the parameter under consideration is read by a decision the test n belongs to"""
+        return any(is_location(h, a) for h, t in decisions(g, n) for a in ast.walk(t) if isinstance(a, ast.Attribute))
+
     # identity tests: every comparison / membership test / lookup in the region that is made with the name of the parameter under
     # consideration or with a key made from it
     n_id = 0
@@ -1091,8 +1152,6 @@ def _parameter_identity(rep: Report, ix: Any) -> None:
                 key = rg.denotes(g, idn, has_name)
                 if not key and not rg.denotes(g, idn, is_name):
                     continue
-                if constant(other):
-                    continue        # a test for one particular name, not a comparison of two parameters
                 n_id += 1
                 if key:
                     both = rg.denotes(g, idn, is_full_key)
@@ -1104,8 +1163,12 @@ def _parameter_identity(rep: Report, ix: Any) -> None:
                     flow = _sources_in(rg, g, unit, stop=everybody)
                     both = any(is_location(h, x) for h, e in flow for x in ast.walk(e) if isinstance(x, ast.Attribute)) or any(
                         isinstance(a, ast.Name) and rg.denotes(h, a, is_current) for h, e in flow for c in calls_in(e) for a in [*c.args, *[k.value for k in c.keywords]])
+                    # - or the same decision reads the location next to the name (`p.param_in == HEADER and p.name in RESERVED`, the test
+                    # nested in one on the location): names the document uses in one location are free in the others
+                    both = both or location_decides(g, n)
                     msg = ("a parameter is skipped / rejected by name alone: a path-item parameter with the same name in another location "
-                           "is lost")
+                           "is lost") if not constant(other) and not is_constant_table(g, other) else (
+                           "a parameter is singled out by its name alone: parameters of that name in every other location are treated alike")
                 rep.check(both, "R03.9", f"Endpoint.add_parameters::identity[{role_text(g, n)}]", msg, where(g, n), lhs=norm(n)[:100],
                           rhs="the test involves the name and the location of the parameter")
     rep.floor("parameter_identity_tests", n_id, 1)
@@ -1305,9 +1368,10 @@ def run(rep: Report, ctx: Any) -> str:
     for (tn, mn, hole), kinds in sorted(sites.items()):
         rep.check(all(k.endswith('STR1"') for k in kinds), "R03.1", f"{tn}::{mn}::{hole}", "a wire name is not emitted inside a \"...\" literal",
                   where=f"{PKG}/templates/{tn}", lhs=sorted(kinds), rhs='STR1"')
-    macro_has = {mn for (tn, mn, hole) in sites}
+    # (the store of a location is written by its macro or by a macro of the same file that it calls)
+    macro_has = {mn for (tn, mn, hole) in sites if tn == em.name}
     for mn in ("cookie_params", "query_params"):
-        rep.check(mn in macro_has, "R03.1", f"endpoint_macros.py.jinja::{mn}::keyed-by-wire-name", "the store is not keyed by the wire name",
+        rep.check(bool(_macro_region(em, mn) & macro_has), "R03.1", f"endpoint_macros.py.jinja::{mn}::keyed-by-wire-name", "the store is not keyed by the wire name",
                   where=f"{PKG}/templates/{em.name}")
     hp = em.macros.get("header_params")
     rep.require(hp, "header_params")
